@@ -62,18 +62,23 @@ class Site:
         d = {p: {k: v for k, v in d.items()} for p, d in self.pages.items()}
         if self.start != '/':
             d['__start__'] = self.start
+        if getattr(self, 'start_spelling', 0):
+            d['__start_spelling__'] = self.start_spelling
         if self.inputs:
             d['__inputs__'] = self.inputs
         return d
 
     def start_urls(self):
-        return ['http://%s%s' % (HOST, self.start)] + ['http://%s/u%d' % (HOST, i) for i in range(self.inputs)]
+        # the start URL as a user types it (upper case, default port, dot segment, fragment): `start_spelling`
+        first = START_SPELLINGS[self.start_spelling % len(START_SPELLINGS)](self.start) if getattr(self, 'start_spelling', 0) else 'http://%s%s' % (HOST, self.start)
+        return [first] + ['http://%s/u%d' % (HOST, i) for i in range(self.inputs)]
 
     @classmethod
     def from_desc(cls, desc):
         s = cls()
         desc = dict(desc)
         s.start = desc.pop('__start__', '/')
+        s.start_spelling = desc.pop('__start_spelling__', 0)
         s.inputs = desc.pop('__inputs__', 0)
         for p, d in desc.items():
             d = dict(d)
@@ -117,6 +122,16 @@ def html_varied(links, salt, meta=None, hinted=False):
         parts.append(forms[0 if plain else (salt + 3 * k) % len(forms)] % ref)
     parts.append('</body></html>')
     return ''.join(parts).encode('utf-8')
+
+
+START_SPELLINGS = [
+    lambda p: 'http://a.test' + p,
+    lambda p: 'HTTP://A.TEST' + p,
+    lambda p: 'http://a.test:80' + p,
+    lambda p: 'http://a.test' + p + '#top',
+    lambda p: 'http://a.test/zz/..' + p,
+    lambda p: 'http://A.test:80/.' + p,
+]
 
 
 class _FoldingPages(dict):
@@ -232,6 +247,11 @@ def gen_site(rng, size=None, redirects=True, inline=True, offsite=True, deep=Fal
         s.pages[twin] = {'kind': 'html', 'links': [(paths[0], False)]} if rng.random() < 0.5 else {'kind': 'leaf'}
         hub = rng.choice([q for q in paths if s.pages[q]['kind'] == 'html'])
         s.pages[hub]['links'] += [(base, False), (twin, False)]
+    # a reference nothing can be made of (urljoin raises ValueError for it), AHEAD of the page's other links: it is
+    # skipped, the rest of the page is still read
+    for p in paths:
+        if s.pages[p]['kind'] == 'html' and s.pages[p]['links'] and rng.random() < 0.2:
+            s.pages[p]['links'].insert(0, (rng.choice(['http://[server]/setup', 'http://[::1/x', '//[v1.x/y']), False))
     # fragment-only and empty references: the page itself
     for p in paths:
         if FRAGMENT_ONLY_LINKS and s.pages[p]['kind'] == 'html' and rng.random() < 0.15:
@@ -271,6 +291,11 @@ def gen_site(rng, size=None, redirects=True, inline=True, offsite=True, deep=Fal
         s.pages['/from-sitemap-page.txt'] = {'kind': 'leaf'}
         if not start_deep and rng.random() < 0.4:
             s.pages['/'] = {'kind': 'missing'}
+    if rng.random() < 0.4:
+        s.start_spelling = rng.randint(1, len(START_SPELLINGS) - 1)
+        # ... and some page links back to the start page
+        back = rng.choice([q for q in s.pages if s.pages[q]['kind'] == 'html'])
+        s.pages[back]['links'].append((s.start, False))
     if redirects and rng.random() < 0.25 and s.pages['/' if not start_deep else '/d/start.html']['kind'] == 'html':
         # a moved section: more same-host redirects in one crawl than a host has connections (6), each to a page
         # nobody else links to; whatever following a redirect costs, it must not add up
@@ -772,7 +797,7 @@ def run_real(site, opts, seed, concurrent, start_urls=None, workdir=None, db=Non
     ps.ItemSession.finish = tagged(orig_finish, 'finish')
     ps.ItemSession.set_status = tagged(orig_set_status, 'status')
     ps.ItemSession.skip = tagged(orig_skip, 'status')
-    urls = start_urls or ['http://%s%s' % (HOST, site.start)]
+    urls = start_urls or site.start_urls()[:1]       # (as the user spells it; the table stores the normal form)
     xargs = list(option_argv(opts)) + list(extra)
     tmp_input = None
     if opts.get('input_file'):
